@@ -93,8 +93,8 @@ func c02Rule(v c02RuleVar, id int, withIndex bool) *Rule {
 		args = append(args, V("$file"))
 	case "pat":
 		args = append(args, V("$file"))
-		if withIndex {
-			args = append(args, V("$index"))
+		if withIndex && v.signal != "viafunc" {
+			args = append(args, V("$index")) // (the variant that reads $index in a function must not read it at rule level first)
 		}
 	}
 	body := []Stmt{Pr(args...)}
@@ -105,6 +105,9 @@ func c02Rule(v c02RuleVar, id int, withIndex bool) *Rule {
 	}
 	switch v.signal {
 	case "viafunc":
+		if withIndex {
+			body = append([]Stmt{Ex(CallE(V("fidx")))}, body...)
+		}
 		body = append(body, Ex(CallE(V("ffile"))), Pr(S("arm"), &MatchExpr{Subj: N("1"), Cases: []MatchCase{{Pats: []Expr{V("m")}, Body: Arr_(V("$file"), V("$"))}}}))
 		if withIndex {
 			body = append(body, Ex(CallE(V("fidx"))), Pr(S("arm"), &MatchExpr{Subj: N("1"), Cases: []MatchCase{{Pats: []Expr{V("m")}, Body: V("$index")}}}))
